@@ -7,6 +7,7 @@ package sctree
 
 import (
 	"fmt"
+	"strings"
 
 	"github.com/0chain/common/core/statecache"
 
@@ -143,10 +144,17 @@ func Gen(rt *rapid.T, p Params) *Tree {
 	}
 	n := gen.Uniform(rt, 2, p.MaxBlocks, "nblocks")
 	valSeq := 0
+	// a tenth of the trees name their blocks with hex-looking hashes and give fork siblings hashes that differ only in
+	// letter case
+	caseTwins := p.Forks && gen.Chance(rt, 10, "casetwins")
+	twinned := map[string]bool{}
 	// quiet long chains: most blocks write nothing, so a key's last write lies many links behind the tip
 	quiet := gen.Chance(rt, 20, "quiet")
 	if quiet {
 		n = gen.Uniform(rt, 22, 60, "nblocksquiet") // far below the 2000 links a lookup is willing to walk
+		if gen.Chance(rt, 50, "veryquiet") {
+			n = gen.Uniform(rt, 105, 150, "nblocksveryquiet") // answers more than 100 links back
+		}
 	}
 	t.Quiet = quiet
 	// values come back: a write often stores a value the key had before (possibly the one that is visible right now)
@@ -165,18 +173,31 @@ func Gen(rt *rapid.T, p Params) *Tree {
 	}
 	for i := 0; i < n; i++ {
 		b := Block{Hash: fmt.Sprintf("B%d", i), Round: int64(i + 1), Commit: true}
+		if caseTwins {
+			b.Hash = fmt.Sprintf("b%dfa", i) // hex-looking, lower case; a fork sibling may get the upper-case twin
+		}
 		switch {
 		case i == 0:
 			b.Prev = ""
 			if p.Gaps && gen.Chance(rt, 30, "rootgap") {
 				b.Prev = "gap-root"
 			}
-		case p.Gaps && gen.Chance(rt, 7, "gap"):
+		case p.Gaps && !quiet && gen.Chance(rt, 7, "gap"):
 			b.Prev = fmt.Sprintf("gap-%d", i)
-		case p.Gaps && gen.Chance(rt, 5, "root2"):
+		case p.Gaps && !quiet && gen.Chance(rt, 5, "root2"):
 			b.Prev = ""
 		case p.Forks && !quiet && gen.Chance(rt, 30, "fork"):
 			b.Prev = t.Blocks[gen.Uniform(rt, 0, i-1, "parent")].Hash
+			if caseTwins {
+				// a sibling on the same parent whose hash has no twin yet: this block becomes its upper-case twin
+				for j := range t.Blocks {
+					if sib := t.Blocks[j]; sib.Prev == b.Prev && !twinned[sib.Hash] && sib.Hash == strings.ToLower(sib.Hash) {
+						b.Hash = strings.ToUpper(sib.Hash)
+						twinned[sib.Hash] = true
+						break
+					}
+				}
+			}
 		case p.Forks && quiet && gen.Chance(rt, 10, "quietfork"):
 			// a short side branch near the tip or anywhere along the chain (the main chain stays long)
 			b.Prev = t.Blocks[gen.Uniform(rt, max(0, i-1-gen.Uniform(rt, 0, 30, "forkback")), i-1, "quietparent")].Hash
@@ -189,7 +210,7 @@ func Gen(rt *rapid.T, p Params) *Tree {
 			b.Direct = append(b.Direct, Write{Key: dk, Val: newVal(dk)})
 		}
 		ntx := gen.Uniform(rt, 0, 3, "ntx")
-		if quiet && i >= 3 && !gen.Chance(rt, 4, "quietwrites") {
+		if quiet && i >= 3 && !(n <= 100 && gen.Chance(rt, 4, "quietwrites")) && !(n > 100 && i >= n-3 && gen.Chance(rt, 30, "tipwrites")) {
 			ntx = 0
 			b.Direct = nil
 		}
